@@ -2,6 +2,7 @@
 from __future__ import annotations
 
 import copy
+import json
 import random
 from typing import Any, Dict, Iterator, List, Optional
 
@@ -908,8 +909,9 @@ class C05(WorkerCheck):
             "every accepted message finished incl. ack unless W elapsed; bounded progress: return <= max(last "
             "completion, request)+1 s (W None) or <= min(last completion, T_ref+W)+1 s where T_ref is the latest "
             "defensible start of the timeout; N => exactly N messages taken. Non-trivial: a shutdown request was "
-            "observed while >=1 accepted message was unfinished; distinct = distinct (kind, delivery) sequences.")
-    floors = {"counters.cli_command_lines": 30, "counters.api_receivers_built": 30, "events.stop": 200, "events.listen_returned": 300, "counters.stop_instants": 20}
+            "observed while >=1 accepted message was unfinished; distinct = distinct (kind, delivery) sequences. Real-process cross-check (shard 0; 4 runs quick, 64 thorough): `python -m taskiq worker` with a scripted broker module, stopped by SIGINT/SIGTERM to the main process; judged on the order of the worker's own event log (<=1 message taken after its signal handler ran, every taken message started, ended, acknowledged before broker shutdown, concurrency and prefetch bounds, exit status 0, no restart).")
+    floors = {"counters.cli_command_lines": 30, "counters.api_receivers_built": 30, "events.stop": 200, "events.listen_returned": 300, "counters.stop_instants": 20,
+              "counters.real_worker_runs": 3, "counters.real_worker_stop_requests_seen": 3}
     quick_cases = 3000
     thorough_cases = 50000
     thorough_time = 420.0
@@ -932,6 +934,38 @@ class C05(WorkerCheck):
                 spec = gen_c05_spec(rng, 16 if tier == "quick" else 30)
             i += 1
             yield spec
+
+    def shard_epilogue(self, tier: str, shard: int, rng: random.Random) -> Dict[str, int]:
+        """Besides the wiring probes: real `taskiq worker` processes (process manager, forked worker, real loop, thread or
+        process pool) fed a scripted stream and stopped with SIGINT / SIGTERM; the oracle reads the order of the
+        lines of the event log the broker module writes (mon/worker_real.py).  Shard 0 only."""
+        out: Dict[str, Any] = dict(super().shard_epilogue(tier, shard, rng))
+        if shard != 0:
+            return out
+        from mon import worker_real
+
+        r = worker_real.cross_check(4 if tier == "quick" else 64, rng.randint(0, 10 ** 9), parallel=4 if tier == "quick" else 8)
+        first = r.pop("first", None)
+        r.pop("first_inconclusive", None)
+        out.update(r)
+        if first:
+            out["real_first::" + json.dumps(first)[:1800]] = 1
+        return out
+
+    def post_merge(self, merged: Dict[str, Any]) -> None:
+        super().post_merge(merged)
+        c = merged["counters"]
+        if c.get("real_worker_violations", 0):
+            first = next((k.split("::", 1)[1] for k in c if k.startswith("real_first::")), "{}")
+            try:
+                fd = json.loads(first)
+            except ValueError:
+                fd = {"msg": first}
+            slot = merged["violations"].setdefault("real-worker-graceful-stop", {"count": 0, "first": None})
+            slot["count"] += c["real_worker_violations"]
+            if slot["first"] is None:
+                slot["first"] = {"kind": "real-worker-graceful-stop", "msg": "`taskiq worker` (real processes): " + str(fd.get("msg")),
+                                 "detail": fd.get("log"), "spec": {"mode": "real-worker", **(fd.get("spec") or {})}, "trace": None}
 
     def judge(self, rr: RunResult, spec: Dict[str, Any], cr: CaseResult) -> None:
         cr.violations += O.oracle_c05(rr, spec)
